@@ -847,6 +847,8 @@ class Encoder:
         raise Unsupported(f"node set {name}")
 
     def exc_match(self, e, cls):
+        if isinstance(cls, (tuple, list)):
+            return OR(*[self.exc_match(e, c) for c in cls])
         if cls == "BaseException":
             return z3.BoolVal(True)
         if cls == "Exception":
@@ -855,7 +857,9 @@ class Encoder:
             return e.kind == K_NODEERR
         if cls == "KeyboardInterrupt":
             return e.kind == K_KBI
-        raise Unsupported(f"except {cls}")
+        # any other class name: the exception kinds of the model are "some Exception" / "some BaseException that is not an
+        # Exception" raised by arbitrary user code -- it need not be an instance of a specific named subclass
+        return z3.BoolVal(False)
 
     # ------------------------------------------------------------------ maps / attrs / iterators
     def map_load(self, s, tid, m, k):
@@ -1189,7 +1193,7 @@ class Encoder:
         if not raised:
             # returned normally: no failure may have happened (C06), every node ran exactly once (C04) -- unless interrupted/cyclic
             B["c06_failure_swallowed"] = OR(B["c06_failure_swallowed"], anyfail)
-            B["c04_not_all_ran"] = OR(B["c04_not_all_ran"], AND(NOT(anyfail), NOT(interrupted), OR(*[sc["g_started"][i] != 1 for i in range(N)])))
+            B["c04_not_all_ran"] = OR(B["c04_not_all_ran"], AND(NOT(interrupted), OR(*[sc["g_started"][i] != 1 for i in range(N)])))
             B["c07_cycle_not_reported"] = OR(B["c07_cycle_not_reported"], cyc)
             B["c17_interrupt_swallowed"] = OR(B["c17_interrupt_swallowed"], interrupted)
         else:
